@@ -439,6 +439,11 @@ def describe():
     }
 
 
+def validate(seed):
+    """Stand-ins against the real program on concrete reads (see pipeline_common.validate_against_cli)."""
+    return pc.validate_against_cli(OPTION_SETS, seed)
+
+
 def jobs(tier, seed):
     return e2_jobs(CONDITIONS, tier)
 
